@@ -1,4 +1,4 @@
-import MpVerif.C01.LemmasConvert6
+import MpVerif.C01.LemmasConvert10
 import MpVerif.C01.PropsObjective
 /-!
 # C01 — the reference converter is correct (property theorems only; round 5, audit item [HIGH])
@@ -17,9 +17,10 @@ logical arguments binary, root data finite, covering contexts).  The checks are 
 -/
 namespace MpVerif.C01
 
-def InFragment (m : NLModel) (cfg : Cfg) : Prop := m.vok = true ∧ (convert m cfg).checks m = true
+def InFragment (m : NLModel) (cfg : Cfg) : Prop :=
+  m.vok = true ∧ (convert m cfg).checks m = true ∧ (cfg.acc = .linear → (convert m cfg).checksLin cfg = true)
 
-instance (m : NLModel) (cfg : Cfg) : Decidable (InFragment m cfg) := inferInstanceAs (Decidable (_ ∧ _))
+instance (m : NLModel) (cfg : Cfg) : Decidable (InFragment m cfg) := inferInstanceAs (Decidable (_ ∧ _ ∧ (_ → _)))
 
 /-- the delivered model of a conversion: Delivered of the abstract composition theorem, instantiated with the converter's output;
 variable domains = the bounds/types the converter created for original and result variables -/
@@ -91,16 +92,112 @@ theorem native_hyps (m : NLModel) (cfg : Cfg) (hacc : cfg.acc = .native) (hck : 
         show v < (convert m cfg).N + (gLFC b.d.res body c).vars.length
         simp only [gLFC, List.length_nil, Nat.add_zero]; exact hlt
 
-/-- **C01_convert_equiv_native** — for every NL model of the fragment and the acceptance set `native` (linear rows + the
-fragment's functional types; linear functional constraints converted): a point satisfies the NL model (variable bounds/types,
-algebraic rows, logical rows — expression trees evaluated directly) **iff** values of the result variables exist that satisfy
-the model `convert` delivers.  No hypothesis about a conversion run; `InFragment` is decidable on the input. -/
-theorem C01_convert_equiv_native (m : NLModel) (cfg : Cfg) (hacc : cfg.acc = .native) (x : Asg) (hfr : InFragment m cfg) :
-    m.sat x ↔ ∃ y, DeliveredC (convert m cfg) x y := by
-  obtain ⟨hv, hc⟩ := hfr
+/-- membership of the block definitions / step-definition correspondence (both acceptance sets) -/
+theorem blocks_perm (m : NLModel) (cfg : Cfg) :
+    (∀ d, d ∈ (convert m cfg).defs ↔ ∃ s ∈ (convert m cfg).blocks.map Block.toStep, s.toDef = d) ∧
+    (∀ b ∈ (convert m cfg).blocks, b.d ∈ (convert m cfg).defs) := by
+  have hblocks : (convert m cfg).blocks =
+      convDefs cfg (sortRank (convert m cfg).defs) (flatAll m).S.B (convert m cfg).N := rfl
+  have hm := convDefs_defs cfg (sortRank (convert m cfg).defs) (flatAll m).S.B (convert m cfg).N
+  have hmem : ∀ b ∈ (convert m cfg).blocks, b.d ∈ (convert m cfg).defs := by
+    intro b hb
+    have : b.d ∈ (convDefs cfg (sortRank (convert m cfg).defs) (flatAll m).S.B (convert m cfg).N).map (·.d) :=
+      List.mem_map.mpr ⟨b, by rw [← hblocks]; exact hb, rfl⟩
+    rw [hm] at this
+    exact (mem_sortRank _ _).mp this
+  refine ⟨?_, hmem⟩
+  intro d
+  constructor
+  · intro hd
+    have : d ∈ (convDefs cfg (sortRank (convert m cfg).defs) (flatAll m).S.B (convert m cfg).N).map (·.d) := by
+      rw [hm]; exact (mem_sortRank d _).mpr hd
+    obtain ⟨b, hb, hbd⟩ := List.mem_map.mp this
+    exact ⟨b.toStep, List.mem_map.mpr ⟨b, by rw [hblocks]; exact hb, rfl⟩, by rw [Block.toStep_def]; exact hbd⟩
+  · intro ⟨s, hs, hsd⟩
+    obtain ⟨b, hb, rfl⟩ := List.mem_map.mp hs
+    rw [Block.toStep_def] at hsd
+    rw [← hsd]; exact hmem b hb
+
+/-- the linear acceptance set: every block is a valid step (gadget theorems + lowering) -/
+theorem linear_hyps (m : NLModel) (cfg : Cfg) (hacc : cfg.acc = .linear) (hck : Checked m (convert m cfg))
+    (hlin : (convert m cfg).checksLin cfg = true) :
+    Chain (convert m cfg).N ((convert m cfg).blocks.map Block.toStep) ∧
+    (∀ s ∈ (convert m cfg).blocks.map Block.toStep, StepOK (convert m cfg).N (DomB (convert m cfg).N (convert m cfg).B) s) := by
+  have hblocks : (convert m cfg).blocks =
+      convDefs cfg (sortRank (convert m cfg).defs) (flatAll m).S.B (convert m cfg).N := rfl
+  simp only [ConvOut.checksLin, Bool.and_eq_true, decide_eq_true_eq, List.all_eq_true] at hlin
+  obtain ⟨⟨hM, hbl⟩, hdefs⟩ := hlin
+  have hstruct := convDefs_linear cfg hacc (convert m cfg).N (flatAll m).S.B (sortRank (convert m cfg).defs)
+    (flatAll m).S.B (convert m cfg).N (Nat.le_refl _) (fun _ _ => rfl)
+  -- the final bounds agree with the flattening bounds on original/result variables
+  have hBfin : ∀ v, v < (convert m cfg).N → (convert m cfg).B v = (flatAll m).S.B v := by
+    intro v hv
+    show ((convert m cfg).blocks.foldl (fun B b => extB B b.lo b.vars) (flatAll m).S.B) v = _
+    apply foldl_extB_below
+    intro b hb
+    exact Nat.lt_of_lt_of_le hv (hstruct b (by rw [← hblocks]; exact hb)).1
+  refine ⟨by rw [hblocks]; exact convDefs_chain cfg _ _ _, ?_⟩
+  intro s hs
+  obtain ⟨b, hb, rfl⟩ := List.mem_map.mp hs
+  have hbd := (blocks_perm m cfg).2 b hb
+  have hres := hck.resN b.d hbd
+  have hvN : ∀ v ∈ b.d.f.vars, v < (convert m cfg).N := fun v hv =>
+    Nat.lt_trans (wf_vars_lt _ _ hck.wf b.d hbd v hv) hres
+  obtain ⟨hlo, hkind⟩ := hstruct b (by rw [← hblocks]; exact hb)
+  rcases hkind with ⟨hc, hnn⟩ | ⟨hnc, hnn, Br, hBr, hvars, hraw, hcons, href⟩
+  · have : b.toStep = Step.native b.d b.lo := by simp [Block.toStep, hc]
+    rw [this]
+    exact stepOK_native' _ _ _ b.d hlo (Nat.lt_of_lt_of_le hres hlo) (fun v hv => Nat.lt_of_lt_of_le (hvN v hv) hlo)
+  · obtain ⟨hrefn, hlocal⟩ := hbl b hb
+    have hrefn' : b.refusal = none := by simpa using hrefn
+    simp only [Block.localRows, List.all_eq_true, Bool.or_eq_true, Bool.and_eq_true, decide_eq_true_eq] at hlocal
+    have hBr' : ∀ v, v < (convert m cfg).N → Br v = (convert m cfg).B v := fun v hv => by rw [hBr v hv, hBfin v hv]
+    have hloc : ∀ c ∈ (gadgetOf b.d Br cfg.opts b.lo).cons, ∀ v ∈ c.vars,
+        v < (convert m cfg).N ∨ (b.lo ≤ v ∧ v < b.lo + (gadgetOf b.d Br cfg.opts b.lo).vars.length) := by
+      intro c hc v hv
+      rw [← hraw] at hc; rw [← hvars]
+      exact hlocal c hc v hv
+    have hrawstep := raw_stepOK (convert m cfg).N b.lo (convert m cfg).B Br cfg.opts b.d hlo hBr'
+      (hck.typed b.d hbd) (hdefs b.d hbd) hres hvN
+      (fun c hc v hv => by
+        rcases hloc c hc v hv with h | ⟨_, h⟩
+        · exact Nat.lt_of_lt_of_le h (Nat.le_trans hlo (Nat.le_add_right _ _))
+        · exact h)
+    have hstep := stepOK_lowered (convert m cfg).N b.lo (convert m cfg).B
+      (extB Br b.lo (gadgetOf b.d Br cfg.opts b.lo).vars) cfg.opts b.d (gadgetOf b.d Br cfg.opts b.lo)
+      (lowerCons (extB Br b.lo (gadgetOf b.d Br cfg.opts b.lo).vars) cfg.opts (gadgetOf b.d Br cfg.opts b.lo).cons)
+      hM rfl (by rw [← hvars, ← hraw]; exact href hrefn') hrawstep
+      (fun v hv => by rw [extB_below _ _ _ _ (Nat.lt_of_lt_of_le hv hlo)]; exact hBr' v hv)
+      (fun y ha v h1 h2 => auxOk_extB Br b.lo _ y ha v h1 h2) hloc
+    have : b.toStep = { b.d with
+        Deliv := fun y => auxOk b.lo y (gadgetOf b.d Br cfg.opts b.lo).vars ∧
+          ∀ c ∈ (lowerCons (extB Br b.lo (gadgetOf b.d Br cfg.opts b.lo).vars) cfg.opts (gadgetOf b.d Br cfg.opts b.lo).cons).cons, c.sat y,
+        lo := b.lo, hi := b.lo + (gadgetOf b.d Br cfg.opts b.lo).vars.length } := by
+      simp only [Block.toStep, hnn, hnc, Bool.or_self, Bool.false_eq_true, if_false]
+      rw [hcons, hraw, hvars]
+    rw [this]; exact hstep
+
+/-- the steps of either acceptance set are valid -/
+theorem steps_hyps (m : NLModel) (cfg : Cfg) (hfr : InFragment m cfg) :
+    Chain (convert m cfg).N ((convert m cfg).blocks.map Block.toStep) ∧
+    (∀ s ∈ (convert m cfg).blocks.map Block.toStep, StepOK (convert m cfg).N (DomB (convert m cfg).N (convert m cfg).B) s) := by
+  obtain ⟨_, hc, hl⟩ := hfr
   have hck := checks_sound m _ hc
-  have hn0 : (convert m cfg).n0 = m.n0 := rfl
-  obtain ⟨hperm, hchain, hok⟩ := native_hyps m cfg hacc hck
+  cases hacc : cfg.acc with
+  | native => exact (native_hyps m cfg hacc hck).2
+  | linear => exact linear_hyps m cfg hacc hck (hl hacc)
+
+/-- **C01_convert_equiv** — for every NL model of the fragment, both acceptance sets (`native`: linear rows + the fragment's
+functional types, linear functional constraints converted; `linear`: only linear rows — every functional constraint reformulated by its
+gadget, indicator rows lowered to big-M rows) and default options: a point satisfies the NL model (variable bounds/types,
+algebraic rows, logical rows — expression trees evaluated directly) **iff** values of the result and auxiliary variables exist
+that satisfy the model `convert` delivers.  No hypothesis about a conversion run; `InFragment` is decidable on the input. -/
+theorem C01_convert_equiv (m : NLModel) (cfg : Cfg) (x : Asg) (hfr : InFragment m cfg) :
+    m.sat x ↔ ∃ y, DeliveredC (convert m cfg) x y := by
+  obtain ⟨hchain, hok⟩ := steps_hyps m cfg hfr
+  obtain ⟨hv, hc, _⟩ := hfr
+  have hck := checks_sound m _ hc
+  have hperm := (blocks_perm m cfg).1
   have hwf : WF m.n0 (convert m cfg).defs := hck.wf
   have hvarsN : ∀ d ∈ (convert m cfg).defs, ∀ v ∈ d.f.vars, v < (convert m cfg).N := fun d hd v hv' =>
     Nat.lt_trans (wf_vars_lt _ _ hck.wf d hd v hv') (hck.resN d hd)
@@ -128,18 +225,19 @@ theorem C01_convert_equiv_native (m : NLModel) (cfg : Cfg) (hacc : cfg.acc = .na
     have := (convert_roots_val m cfg x hv hwf).mp ((hcomp hx).mpr ⟨y, hdel⟩)
     exact ⟨hx, this.1, this.2⟩
 
-
-/-- **C01_convert_objective_native** — the objective clause for the reference converter: at every point satisfying the NL model the
-NL objective value (expression tree evaluated directly) is attained by a delivered solution over that point and no delivered
-solution over that point is better — the best delivered objective over the result variables equals the original objective value. -/
-theorem C01_convert_objective_native (m : NLModel) (cfg : Cfg) (hacc : cfg.acc = .native) (x : Asg) (hfr : InFragment m cfg)
+/-- **C01_convert_objective** — the objective clause for the reference converter, both acceptance sets: at every point satisfying
+the NL model the NL objective value (expression tree evaluated directly) is attained by a delivered solution over that point and
+no delivered solution over that point is better: the best delivered objective over the result/auxiliary variables equals the
+original objective value. -/
+theorem C01_convert_objective (m : NLModel) (cfg : Cfg) (x : Asg) (hfr : InFragment m cfg)
     (s : Sense) (e : NE) (hobj : m.obj = some (s, e)) (hsat : m.sat x) :
     ∃ o, (convert m cfg).obj = some o ∧ o.sense = s ∧
       (∃ y, DeliveredC (convert m cfg) x y ∧ o.val y = e.eval x) ∧
       (∀ y, DeliveredC (convert m cfg) x y → noWorse s (e.eval x) (o.val y)) := by
-  obtain ⟨hv, hc⟩ := hfr
+  obtain ⟨hchain, hok⟩ := steps_hyps m cfg hfr
+  obtain ⟨hv, hc, _⟩ := hfr
   have hck := checks_sound m _ hc
-  obtain ⟨hperm, hchain, hok⟩ := native_hyps m cfg hacc hck
+  have hperm := (blocks_perm m cfg).1
   have hwf : WF m.n0 (convert m cfg).defs := hck.wf
   have hvarsN : ∀ d ∈ (convert m cfg).defs, ∀ v ∈ d.f.vars, v < (convert m cfg).N := fun d hd v hv' =>
     Nat.lt_trans (wf_vars_lt _ _ hck.wf d hd v hv') (hck.resN d hd)
@@ -160,5 +258,51 @@ theorem C01_convert_objective_native (m : NLModel) (cfg : Cfg) (hacc : cfg.acc =
   · intro y hd
     have := h.2 y hd
     rw [hval, hs] at this; exact this
+
+/-! ## non-vacuity: a concrete model of the fragment (nesting, a shared subexpression, a logical row, an objective)
+
+`minimize x0 + |x2|  s.t.  x0 + |x2| + max(|x2|, x1) ≤ 4,  (x1 ≤ 2) ∨ ¬(x1 ≥ 0)`,
+`x0 ∈ [0,5]`, `x1 ∈ {-2,…,3}`, `x2 ∈ [-3,3]`.  Membership in the fragment is decided by kernel evaluation of the decidable predicate
+(`decide +kernel`: no axiom beyond the three standard ones). -/
+
+def exVI (l u : Rat) (i : Bool) : VarInfo := ⟨some l, some u, i⟩
+def exB0 : Bnds := fun v => if v = 0 then exVI 0 5 false else if v = 1 then exVI (-2) 3 true else exVI (-3) 3 false
+def exNL : NLModel :=
+  ⟨3, exB0, some (.min, .add (.v 0) (.abs (.v 2))),
+   [(.add (.v 0) (.add (.abs (.v 2)) (.max (.cons (.abs (.v 2)) (.cons (.v 1) .nil)))), none, some 4)],
+   [.or (.cons (.cmp .le (.v 1) (.c 2)) (.cons (.not (.cmp .ge (.v 1) (.c 0))) .nil))]⟩
+
+theorem exVI_admits (l u q : Rat) (i : Bool) (h1 : l ≤ q) (h2 : q ≤ u) (hi : i = true → isIntVal q) : (exVI l u i).admits q :=
+  ⟨fun l' h => by simp [exVI] at h; subst h; exact h1, fun u' h => by simp [exVI] at h; subst h; exact h2,
+   fun h => hi (by simpa [exVI] using h)⟩
+
+theorem C01_convert_example_infragment_linear : InFragment exNL { acc := .linear } := by decide +kernel
+theorem C01_convert_example_infragment_native : InFragment exNL { acc := .native } := by decide +kernel
+
+/-- the theorems applied to the concrete model: NL semantics ⇔ the 12-variable all-linear delivered model -/
+theorem C01_convert_example_equiv (x : Asg) :
+    exNL.sat x ↔ ∃ y, DeliveredC (convert exNL { acc := .linear }) x y :=
+  C01_convert_equiv exNL _ x C01_convert_example_infragment_linear
+
+/-- the instance is not degenerate: the point (1, 1, -1) satisfies the NL model, (1, 1, -3) does not -/
+example : exNL.sat (fun v => if v = 0 then 1 else if v = 1 then 1 else -1) := by
+  refine ⟨?_, ?_, ?_⟩
+  · intro v hv
+    have : v = 0 ∨ v = 1 ∨ v = 2 := by simp only [exNL] at hv; omega
+    rcases this with h | h | h <;> subst h
+    · exact exVI_admits 0 5 1 false (by grind) (by grind) (by simp)
+    · exact exVI_admits (-2) 3 1 true (by grind) (by grind) (fun _ => ⟨1, by simp⟩)
+    · exact exVI_admits (-3) 3 (-1) false (by grind) (by grind) (by simp)
+  · intro c hc
+    simp [exNL] at hc; subst hc
+    simp [inRange, NE.eval, NEs.evals, maxQ]; grind
+  · intro l hl
+    simp [exNL] at hl; subst hl
+    simp [LE.eval, LEs.evals, NE.eval, b2r, Cmp5.holds]; grind
+
+example : ¬ exNL.sat (fun v => if v = 0 then 1 else if v = 1 then 1 else -3) := by
+  intro ⟨_, h, _⟩
+  have := h _ (List.mem_singleton.mpr rfl)
+  simp [inRange, NE.eval, NEs.evals, maxQ] at this; grind
 
 end MpVerif.C01
